@@ -324,6 +324,13 @@ def check_optional(ctx, tu):
     n1 = n2 = 0
     n_exc = [0]
     for f, rule in entries:
+        if f.get('access') in ('private', 'protected'):
+            # a non-public helper is analysed in the context (and under the preconditions) of the public members that call it
+            ctx.ok(rule, '%s %s' % (f['q'].replace('rkcommon::utility::', ''), f['fty']), 'non-public helper: analysed inlined into its public callers',
+                   tu.fn_loc(f), nontrivial=False)
+            if rule == R1:
+                n1 += 1
+            continue
         env = {}
         objs = {}
         triv = {}
@@ -556,6 +563,9 @@ class AnyInterp(ObjInterp):
         return None
 
     def aval(self, e, st, fr):
+        ct = self.tu.sd(self.tu.strip(e)).get('ct', '') if e is not None else ''
+        if ct.endswith('*') or 'unique_ptr' in ct:
+            return self.holder_value(e, st, fr)
         return self.eval_bool(e, st, fr)
 
     def on_init(self, e, st, fr, depth=0):
@@ -603,6 +613,11 @@ class AnyInterp(ObjInterp):
             sd, obj, args = tu.call_parts(e0)
             if sd.get('q', '').endswith('::clone'):
                 return 'V'
+            if sd.get('rec') == ANY:
+                vals = self.call_value(e0, st, fr)
+                if vals and all(v in ('V', 'N') for v in vals) and len(set(vals)) == 1:
+                    return vals[0]
+                return None
         if k == 'CallExpr':
             sd, obj, args = tu.call_parts(e0)
             if sd.get('q') in ('std::move', 'std::forward') and args:
@@ -651,7 +666,14 @@ class AnyInterp(ObjInterp):
                 o = self.holder_obj(obj, fr)
                 if o is not None and name in ('reset', 'release'):
                     d = thaw(st)
-                    d[o] = 'V' if (name == 'reset' and args and not self.is_null(args[0])) else 'N'
+                    args = [a for a in args if a.get('kind') != 'CXXDefaultArgExpr']
+                    if name == 'reset' and args:
+                        v = self.holder_value(args[0], st, fr)
+                        if v is None:
+                            return [freeze(dict(d, **{o: 'V'})), freeze(dict(d, **{o: 'N'}))]
+                        d[o] = v
+                    else:
+                        d[o] = 'N'
                     return [freeze(d)]
         return None
 
@@ -728,7 +750,19 @@ def check_any(ctx, tu):
         if f.get('rec') == ANY and f.get('ctor') == 'copy' and tu.cfg(f) is not None:
             g = tu.cfg(f)
             clones = shares = 0
-            for b, i, n in g.stmts():
+            stmts = list(g.stmts())
+            seen_fn = {f['id']}
+            work = [f]
+            while work:      # follow calls to other members of Any (helpers such as cloneValue())
+                cur = work.pop()
+                for b, i, n in tu.cfg(cur).stmts():
+                    if n.get('kind') == 'CXXMemberCallExpr' and tu.sd(n).get('rec') == ANY:
+                        cf = tu.callee_fn(n)
+                        if cf is not None and cf['id'] not in seen_fn and tu.cfg(cf) is not None:
+                            seen_fn.add(cf['id'])
+                            work.append(cf)
+                            stmts += list(tu.cfg(cf).stmts())
+            for b, i, n in stmts:
                 if n.get('kind') == 'CXXMemberCallExpr' and tu.sd(n).get('q', '').endswith('handle_base::clone'):
                     clones += 1
                 if n.get('kind') == 'CXXMemberCallExpr' and tu.sd(n).get('q', '').split('::')[-1] in ('get', 'release'):
@@ -913,50 +947,93 @@ def check_any_get(ctx, tu, R5):
             g = tu.cfg(f)
             inst = '%s %s %s' % (f['q'].replace('rkcommon::utility::', ''), f['fty'], f.get('targs'))
             key = '%s|%s|Any::get|' % (R5, tu.fn_file(f))
-            # find is<T>() call used as a branch condition
-            guard_blocks = []
-            for b in g.blocks.values():
-                if b.cond and len(b.succ) == 2:
-                    c = tu.strip(tu.node(b.cond))
-                    if c is not None and c.get('kind') == 'CXXMemberCallExpr' and tu.sd(c).get('q') == ANY + '::is':
-                        # template argument of is<> must equal that of get<>
-                        cf = tu.callee_fn(c)
-                        same = cf is not None and cf.get('targs') == f.get('targs')
-                        guard_blocks.append((b, same))
-            rets = [(b, i, nn) for b, i, nn in g.stmts() if nn.get('kind') == 'ReturnStmt']
             problems = []
-            if not guard_blocks:
-                problems.append('no is<T>() test guards the typed access')
-            for b, same in guard_blocks:
-                if not same:
-                    problems.append('the type test is made for a different type than the one returned')
-            dom = g.dominators()
-            for (rb, ri, rn) in rets:
-                okd = False
-                for b, same in guard_blocks:
-                    ts = b.succ[0]
-                    if ts is not None and ts in dom.get(rb.id, ()) and not (b.succ[1] is not None and b.succ[1] in dom.get(rb.id, ()) and b.succ[1] == ts):
-                        okd = True
-                if not okd:
-                    problems.append('a return of the stored value at %s is not dominated by a successful is<T>() test' % tu.loc(rn))
-            # all exits that are not returns must throw std::runtime_error
-            reach = g.reachable()
-            for b in g.blocks.values():
-                if b.id in reach and g.exit in [s for s in b.succ if s is not None]:
-                    kinds = [tu.node(e[1]).get('kind') for e in b.el if e[0] == 'S' and tu.node(e[1])]
-                    if 'ReturnStmt' in kinds:
+            undecided = []
+            stmts = list(g.stmts())
+            accesses = [nn for b, i, nn in stmts if nn.get('kind') == 'CXXMemberCallExpr' and tu.sd(nn).get('q', '').endswith('handle_base::data')]
+            fwd = [nn for b, i, nn in stmts if nn.get('kind') == 'CXXMemberCallExpr' and tu.sd(nn).get('q') == ANY + '::get'
+                   and (tu.callee_fn(nn) or {}).get('targs') == f.get('targs') and (tu.callee_fn(nn) or {}).get('id') != f['id']]
+            if not accesses and fwd:
+                ctx.ok(R5, inst, 'forwards to the other get<T>() overload for the same T (checked there)', tu.fn_loc(f))
+                continue
+
+            def only_throws_runtime_error(cf, depth=0):
+                """True if every path of cf ends in `throw std::runtime_error` (directly or through such helpers), None if unknown"""
+                cg = tu.cfg(cf)
+                if cg is None or depth > 4:
+                    return None
+                reach = cg.reachable()
+                for b in cg.blocks.values():
+                    if b.id not in reach or cg.exit not in [x for x in b.succ if x is not None]:
                         continue
-                    thr = [tu.node(e[1]) for e in b.el if e[0] == 'S' and tu.node(e[1]) and tu.node(e[1]).get('kind') == 'CXXThrowExpr']
-                    if not thr:
-                        problems.append('a path leaves get<T>() without returning the value or throwing')
-                    for t in thr:
-                        if tu.sd(t).get('tty') != 'std::runtime_error':
-                            problems.append('throws %s instead of std::runtime_error at %s' % (tu.sd(t).get('tty'), tu.loc(t)))
+                    ns = [tu.node(e[1]) for e in b.el if e[0] == 'S' and tu.node(e[1])]
+                    thr = [x for x in ns if x.get('kind') == 'CXXThrowExpr']
+                    if thr:
+                        if any(tu.sd(t).get('tty') not in (None, 'std::runtime_error') for t in thr):
+                            return False
+                        continue
+                    calls = [x for x in ns if x.get('kind') in ('CallExpr', 'CXXMemberCallExpr') and b.noret]
+                    sub = [only_throws_runtime_error(tu.callee_fn(c), depth + 1) for c in calls if tu.callee_fn(c) is not None]
+                    if not sub or not all(v is True for v in sub):
+                        return False if any(v is False for v in sub) else None
+                return True
+
+            def refine(blk, si, st):
+                if blk.cond is None or len(blk.succ) != 2:
+                    return [st]
+                c = tu.strip(tu.node(blk.cond), casts=True)
+                truth = (si == 0)
+                while c is not None and c.get('kind') == 'UnaryOperator' and c.get('opcode') == '!':
+                    truth = not truth
+                    c = tu.strip(tu.kids(c)[0], casts=True)
+                if c is not None and c.get('kind') == 'CXXMemberCallExpr' and tu.sd(c).get('q') == ANY + '::is':
+                    cf = tu.callee_fn(c)
+                    if cf is None or cf.get('targs') != f.get('targs'):
+                        problems.append('the type test is made for a different type than the one returned')
+                        return [st]
+                    return ['T' if truth else 'F']
+                return [st]
+
+            def transfer(blk, i, el, st):
+                if el[0] != 'S':
+                    return [st]
+                x = tu.node(el[1])
+                if x is None:
+                    return [st]
+                if x.get('kind') == 'CXXMemberCallExpr' and tu.sd(x).get('q', '').endswith('handle_base::data') and st != 'T':
+                    problems.append('the stored object is accessed as T at %s on a path where is<T>() was not tested to be true' % tu.loc(x))
+                if x.get('kind') == 'CXXThrowExpr':
+                    if tu.sd(x).get('tty') not in (None, 'std::runtime_error'):
+                        problems.append('throws %s instead of std::runtime_error' % tu.sd(x).get('tty'))
+                    return []
+                if x.get('kind') in ('CallExpr', 'CXXMemberCallExpr') and blk.noret and i == max(k for k, e in enumerate(blk.el) if e[0] == 'S'):
+                    cf = tu.callee_fn(x)
+                    v = only_throws_runtime_error(cf) if cf is not None else None
+                    if v is True:
+                        return []
+                    if v is False:
+                        problems.append('the non-returning helper %s called at %s does not always throw std::runtime_error' % (tu.sd(x).get('q'), tu.loc(x)))
+                        return []
+                    undecided.append('non-returning call %s at %s has no body to analyse' % (tu.sd(x).get('q'), tu.loc(x)))
+                    return []
+                return [st]
+
+            res = g.explore(['?'], transfer, refine)
+            for (st, via) in res.exits:
+                blk = g.blocks[via]
+                kinds = [tu.node(e[1]).get('kind') for e in blk.el if e[0] == 'S' and tu.node(e[1])]
+                if 'ReturnStmt' not in kinds:
+                    problems.append('a path leaves get<T>() without returning the value or throwing')
+            if not accesses:
+                undecided.append('no typed access to the holder found in get<T>()')
             if problems:
-                for p in sorted(set(problems)):
-                    ctx.violation(R5, inst, p, tu.fn_loc(f), key=key + re.sub(r' at .*', '', p))
+                for pmsg in sorted(set(problems)):
+                    ctx.violation(R5, inst, pmsg, tu.fn_loc(f), key=key + re.sub(r' at \S+', '', pmsg))
+            elif undecided:
+                for u in sorted(set(undecided)):
+                    ctx.undecided(R5, inst, u, tu.fn_loc(f))
             else:
-                ctx.ok(R5, inst, 'typed access dominated by is<T>(); other exits throw std::runtime_error', tu.fn_loc(f))
+                ctx.ok(R5, inst, 'typed access only on paths where is<T>() is true; every other path throws std::runtime_error', tu.fn_loc(f))
         elif name == 'is':
             n += 1
             g = tu.cfg(f)
